@@ -570,6 +570,22 @@ def selftest_trace_oracle(check: core.Check) -> None:
                                                   "fails": [{"op": "unite_values", "exc": "RuntimeError: __hash__ raises"}]}])
     expect[26] = ("viol:ValueOperationRaised", [{"tid": 26, "event": "ValueOp", "a": big, "b": HR,
                                                   "fails": [{"op": "can_assign", "exc": "RuntimeError: __hash__ raises"}]}])
+    # repaired crashes inside their former fragment kinds are violations now (55a5b7d, 918a2c8)
+    beginv = {**begin, "prog": [{"kind": "version_info_compare", "a": "str", "b": "none", "w": ["def"]}]}
+    begina = {**begin, "prog": [{"kind": "paramspec_alias", "a": "int", "b": "none", "w": ["def"]}]}
+    end = lambda t: {"tid": t, "event": "End", "skipped": False}  # noqa: E731
+    expect[29] = ("viol:InternalError", [{**beginv, "tid": 29}, {**good, "tid": 29, "frag": 1, "code": "internal_error", "exck": "TypeError",
+                                          "site": "name_check_visitor.py:_visit_single_compare",
+                                          "exc": "Internal error: TypeError(\"'>' not supported between instances of 'sys.version_info' and 'str'\")"}, end(29)])
+    expect[30] = ("viol:InternalError", [{**begina, "tid": 30}, {**good, "tid": 30, "frag": 1, "code": "internal_error", "exck": "TypeError",
+                                          "site": "annotations.py:get_type_alias", "exc": "Internal error: TypeError(\"unhashable type: 'list'\")"}, end(30)])
+    # ... while the one open input-side class is excused inside its kind only
+    expect[31] = ("dev:paramspec-substituted-by-non-signature", [{**begina, "tid": 31}, {**good, "tid": 31, "frag": 1, "code": "internal_error",
+                                          "exck": "AssertionError", "site": "signature.py:substitute_typevars",
+                                          "exc": "Internal error: AssertionError(TypedValue(typ=<class 'int'>, literal_only=False))"}, end(31)])
+    expect[32] = ("viol:InternalError", [{**beginv, "tid": 32}, {**good, "tid": 32, "frag": 1, "code": "internal_error",
+                                          "exck": "AssertionError", "site": "signature.py:substitute_typevars",
+                                          "exc": "Internal error: AssertionError(TypedValue(typ=<class 'int'>, literal_only=False))"}, end(32)])
     # the open input-side classes excuse nothing outside their own fragment kind
     expect[27] = ("viol:InternalError", case(27, {"code": "internal_error", "exck": "TypeError", "site": "name_check_visitor.py:_visit_single_compare",
                                                   "exc": "Internal error: TypeError(\"'>' not supported between instances of 'sys.version_info' and 'str'\")"}))
